@@ -168,8 +168,8 @@ def to_rational(s):
 
 
 def _radd(a, b, c, d):
-    if b == d:
-        return add(a, c), b
+    # always cross-multiplied (no "equal denominators" shortcut): the magnitude-bound recursion (to_rational_abs) must
+    # take exactly the same structural decisions as the signed one, and z / -z are equal only in the former
     return add(mul(a, d), mul(c, b)), mul(b, d)
 
 
